@@ -58,6 +58,15 @@ Theorem C18_register_state : forall (V : Type) (zero : V) (eqb : V -> V -> bool)
 Proof. exact register_state. Qed.
 Print Assumptions C18_register_state.
 
+(* The results handed to a goroutine (what the correspondence check compares
+   with the real code) are exactly its responses in that history, in order. *)
+Theorem C18_rets_are_history : forall (V : Type) (zero : V) (eqb : V -> V -> bool)
+    (progs : list (list (op V))) (s : list (tid * bool)) t th,
+  nth_error (a_threads (arun zero eqb (ainit progs) s)) t = Some th ->
+  a_rets th = rev (tres V t (a_trace (arun zero eqb (ainit progs) s))).
+Proof. exact rets_are_history. Qed.
+Print Assumptions C18_rets_are_history.
+
 (* ---------------- Pool ---------------- *)
 
 (* Ownership: in every reachable configuration every token occurs at most
@@ -90,6 +99,13 @@ Theorem C18_pool_get_returns : forall (new : bool) (progs : list (list pop)) (s 
   end.
 Proof. exact pool_get_returns. Qed.
 Print Assumptions C18_pool_get_returns.
+
+(* The values handed to a goroutine by Get are exactly its PERetGet events, in order. *)
+Theorem C18_pool_got_are_returns : forall (new : bool) (progs : list (list pop)) (s : list sitem) t th,
+  nth_error (p_threads (prun (pinit new progs) s)) t = Some th ->
+  p_got th = rev (tgot t (p_trace (prun (pinit new progs) s))).
+Proof. exact pool_got_are_returns. Qed.
+Print Assumptions C18_pool_got_are_returns.
 
 (* No step of Get or Put writes a shared plain field: the only plain accesses
    are reads of the field New, which keeps its initial value for ever. *)
